@@ -84,10 +84,45 @@ var dockerScenarios = []dockerScenario{
 
 var dockerKinds = []string{"warm", "none", "elsewhere", "inside", "inside", "elsewhere", "none"}
 
+// Scripted histories: negative case seeds (-1-k) denote
+// (pattern family, order of the four scan kinds) instead of a random history:
+// the complete tree of the family, no edits, the four kinds of scan in every one
+// of their 24 orders, so that every "kind X directly after kind Y" chain is
+// certainly exercised for every family (random histories reach a given chain
+// of three only now and then).
+func dockerScriptedSeed(k int) int64 { return -1 - int64(k) }
+
+var dockerOrders = func() [][]string {
+	k := []string{"warm", "none", "elsewhere", "inside"}
+	var out [][]string
+	var rec func(cur []string, used int)
+	rec = func(cur []string, used int) {
+		if len(cur) == len(k) {
+			out = append(out, append([]string{}, cur...))
+			return
+		}
+		for i := range k {
+			if used&(1<<i) == 0 {
+				rec(append(cur, k[i]), used|1<<i)
+			}
+		}
+	}
+	rec(nil, 0)
+	return out
+}()
+
+func dockerScriptedCount() int { return len(dockerScenarios) * len(dockerOrders) }
+
 func dockerCase(c *vlib.Ctx, cseed int64, upto int) {
 	r := rand.New(rand.NewSource(cseed))
 	g := &gen{r: r, budget: 8}
 	sc := dockerScenarios[r.Intn(len(dockerScenarios))]
+	var order []string
+	if cseed < 0 {
+		k := int(-1 - cseed)
+		sc = dockerScenarios[(k/len(dockerOrders))%len(dockerScenarios)]
+		order = dockerOrders[k%len(dockerOrders)]
+	}
 	ig, err := dockerignore.NewIgnorer(sc.patterns)
 	if err != nil {
 		vlib.Fatal("docker patterns %v: %v", sc.patterns, err)
@@ -101,12 +136,12 @@ func dockerCase(c *vlib.Ctx, cseed int64, upto int) {
 	root := filepath.Join(base, "root")
 	must(os.Mkdir(root, 0o755))
 	for _, d := range sc.dirs {
-		if r.Intn(10) > 0 || d == "proj" || d == sc.excluded {
+		if order != nil || r.Intn(10) > 0 || d == "proj" || d == sc.excluded {
 			os.MkdirAll(filepath.Join(root, d), 0o755)
 		}
 	}
 	for _, f := range sc.files {
-		if _, err := os.Stat(filepath.Dir(filepath.Join(root, f))); err == nil && r.Intn(6) > 0 {
+		if _, err := os.Stat(filepath.Dir(filepath.Join(root, f))); err == nil && (order != nil || r.Intn(6) > 0) {
 			p := filepath.Join(root, f)
 			must(os.WriteFile(p, content(fileSizes[r.Intn(8)], r.Int63()), os.FileMode(fileModes[r.Intn(6)]&0o777)))
 			g.stamp(p)
@@ -121,10 +156,16 @@ func dockerCase(c *vlib.Ctx, cseed int64, upto int) {
 		vlib.Fatal("docker: first scan failed: %v", held.err)
 	}
 	steps := 4 + r.Intn(4)
+	if order != nil {
+		steps = len(order)
+	}
 	for step := 1; step <= steps; step++ {
 		kind := dockerKinds[r.Intn(len(dockerKinds))]
+		if order != nil {
+			kind = order[step-1]
+		}
 		edits := []any{}
-		if r.Intn(2) == 0 {
+		if order == nil && r.Intn(2) == 0 {
 			for i := 1 + r.Intn(3); i > 0; i-- {
 				edits = append(edits, ascii(g.dockerEdit(root, sc)))
 			}
